@@ -9,6 +9,8 @@ QUICK = [
     (["S", "F", "K", "N", "F"], (4, 8)),
     (["NS", "NFS", "K", "K", "S"], (4, 8)),
     (["F", "No", "U", "S"], (4,)),
+    # a whole window skipped (in any order, e.g. its first slot last) behind a notarized block
+    (["N", "K", "K", "K", "K", "K", "K"], (4, 8)),
 ]
 
 
